@@ -306,7 +306,7 @@ def main():
     return r.returncode
 
 
-HOOK_COMMITS = ["086870a"]
+HOOK_COMMITS = ["086870a", "9fba8b4"]
 
 if __name__ == "__main__":
     sys.exit(main())
